@@ -13,7 +13,7 @@ Inductive rdw :=
 | WName (n : bytes)            (* a domain name: relative, absolute or @ *)
 | WAddr (text : bytes)         (* an address in its text form *)
 | WTxt (l : list bytes)        (* character-strings, each written between quotes *)
-| WGen (hexs : list bytes).    (* \# <length> followed by hex words *)
+| WGen (len : bytes) (hexs : list bytes).    (* \# <length> followed by hex words *)
 
 Record recd := mkRecd {
   d_owner : option bytes;      (* None: omitted, the previous owner is repeated *)
@@ -74,7 +74,7 @@ Definition rd_family_ok (t : N) (w : rdw) : bool :=
   | WAddr _, FA => true
   | WAddr _, FAAAA => true
   | WTxt _, FTxt _ => true
-  | WGen _, _ => negb (known_type t)
+  | WGen _ _, _ => negb (known_type t)
   | _, _ => false
   end.
 
@@ -87,7 +87,7 @@ Definition denote_rd (origin : bytes) (t : N) (w : rdw) : option rdata :=
     | None => None
     end
   | WTxt l => Some (RTxt l)
-  | WGen hs => Some (RGen (concat hs))
+  | WGen _ hs => Some (RGen (concat hs))
   end.
 
 (* one entry: the record it denotes (if any) and the state after it; None when
@@ -176,8 +176,8 @@ Definition sk_rd (w : rdw) : list stok :=
   | WName n => [sk_str n]
   | WAddr t => [sk_str t]
   | WTxt l => sk_txt l
-  | WGen hs => sk_str [92; 35] :: sk_blank :: sk_str (bytes_of_string (dec (lenN (concat hs) / 2))) ::
-               (match hs with [] => [] | _ => sk_blank :: sk_words hs end)
+  | WGen len hs => sk_str [92; 35] :: sk_blank :: sk_str len ::
+                   (match hs with [] => [] | _ => sk_blank :: sk_words hs end)
   end.
 
 Definition sk_rec (r : recd) : list stok :=
